@@ -111,10 +111,12 @@ def record_lattice(spec):
                                  Jdes=spec["Jdes"], Kdes=spec["Kdes"], Lmin=1)
     sw = {2: 0.0, 1: math.sqrt(3) / 2, 0: 1.0, -1: math.sqrt(3) / 2, -2: 0.0}
 
-    def event(kind, r, q, c2):
+    def event(kind, r, q, c2, mirror=False):
         D = [int(v) for v in r.D[q]]
         s = sw[c2]
         mi = float(r.XY[q].imag) / s if s else 0.0
+        if mirror:
+            mi = -mi            # a request at fs - f (beyond Nyquist, allowed with a warning): exp(-i w n) at w = 2 pi - w0 is the conjugate phasor
         m2 = float(r.M2[q])
         m2scale = 65536 if m2 < 1.6e4 else (256 if m2 < 4e6 else 1)      # q saturates at 2^30
         return {"kind": kind, "L": int(r.L[q]), "D": D, "c2": c2, "K": int(r.K[q]), "navg": int(r.navg[q]), "m2scale": m2scale,
@@ -127,6 +129,10 @@ def record_lattice(spec):
             continue
         r = a.compute_single_bin(freqs[c2], L=L)
         ev.append(event("single", r, 0, c2))
+    for (c2, L) in spec["singles"][:2]:
+        if L <= N and c2 in (1, 0, -1):
+            r = a.compute_single_bin(1.0 - freqs[c2], L=L)
+            ev.append(event("single", r, 0, c2, mirror=True))
     for k, (c2, fresL) in enumerate(spec["singles_fres"]):
         # fs/fres need not be an integer: the reported f stays the requested frequency, L = round(fs/fres)
         r = a.compute_single_bin(freqs[c2], fres=1.0 / (fresL + (0.4 if k % 2 else 0.0)))
